@@ -152,7 +152,13 @@ impl JWriter<'_> {
                 let x = f.0;
                 if !x.is_finite() {
                     let t = if x.is_nan() { "NaN" } else if x > 0.0 { "INF" } else { "-INF" };
-                    self.kind_obj("number", vec![("val".into(), Box::new(move |w: &mut JWriter| w.string(t)))]);
+                    let mut mm: Vec<(String, Box<dyn FnOnce(&mut JWriter)>)> = vec![("val".into(), Box::new(move |w: &mut JWriter| w.string(t)))];
+                    // only reachable from the relaxed (not well-formed) generator: a non-finite number that carries a unit
+                    if let Some(u) = u {
+                        let sym = crate::bridge::unit_by_name(u).expect("unit").symbol().to_string();
+                        mm.push(("unit".into(), Box::new(move |w: &mut JWriter| w.string(&sym))));
+                    }
+                    self.kind_obj("number", mm);
                 } else if let Some(u) = u {
                     let sym = crate::bridge::unit_by_name(u).expect("unit").symbol().to_string();
                     self.kind_obj("number", vec![("val".into(), Box::new(move |w: &mut JWriter| w.number(x))), ("unit".into(), Box::new(move |w: &mut JWriter| w.string(&sym)))]);
